@@ -120,7 +120,11 @@ func (i Interval) Length() float64 {
 	if l >= 0 {
 		return l
 	}
-	l += 2 * math.Pi
+	// The interval is inverted. Compute the length as the sum of the two
+	// non-negative arcs on either side of ±π (as positiveDistance does), so that
+	// a non-empty interval never yields a non-positive result through
+	// cancellation, e.g. for [π, -π + 1ulp].
+	l = (i.Hi + math.Pi) + (math.Pi - i.Lo)
 	if l > 0 {
 		return l
 	}
